@@ -1575,7 +1575,6 @@ class WBEMListener:
                 self.logger.info(
                     "%s indications discarded from indication queue",
                     clr_count)
-            self._ind_queue = None
 
         # Tolerate that callback thread has already stopped, just in case.
         if self._callback_thread:
@@ -1584,6 +1583,12 @@ class WBEMListener:
             self._callback_thread.join()
             self.logger.info("Stopped callback thread")
             self._callback_thread = None
+
+        # The queue must exist until the callback thread has ended: An empty
+        # queue does not mean that the callback thread is idle; it may still
+        # deliver the last indication (and then marks it done in the queue), or
+        # its get() may be about to time out (and is then repeated).
+        self._ind_queue = None
 
     def _stop_listener_threads(self):
         """
